@@ -152,6 +152,28 @@ func c19Cases(maxLen int) []c19Case {
 		if len(tw.kinds) > maxLen+1 {
 			tw.kinds = tw.kinds[:maxLen+1]
 		}
+		// the runtime prints at most 10 argument words per frame (then "..."): keep the
+		// twin's parameter list within that, like the base cases are
+		words := func(ks []int) int {
+			n := 0
+			if tw.method {
+				n = 1
+			}
+			for _, k := range ks {
+				switch t := c19Kinds[k].typ; {
+				case t == "string":
+					n += 2
+				case strings.HasPrefix(t, "[]"):
+					n += 3
+				default:
+					n++
+				}
+			}
+			return n
+		}
+		for len(tw.kinds) > 1 && words(tw.kinds) > 10 {
+			tw.kinds = tw.kinds[:len(tw.kinds)-1]
+		}
 		for k := range tw.kinds {
 			if tw.sub && tw.kinds[k] == kindT {
 				tw.kinds[k] = kindPtrInt // package sub does not know main's T
